@@ -39,12 +39,46 @@ def make_case(rng, ops=ALLOPS, depth=None, storages=("local", "array")):
         expr = [rng.choice([o for o in ("abs", "neg") if o in ops]), leaf]
         if rng.random() < 0.3:
             expr = [rng.choice(["+", "-", "|"]), expr, exprs.rand_leaf(rng, [n for n, _, _ in decls[:-1]], regs)]
-    return {"decls": decls, "values": values, "reginit": reginit, "regs": regs, "expr": expr, "dest": "d"}
+    case = {"decls": decls, "values": values, "reginit": reginit, "regs": regs, "expr": expr, "dest": "d"}
+    if rng.random() < 0.15:
+        # the destination is a register; in most of these cases the expression reads that register itself
+        # (left, right, below a unary operator or deeper in the right operand)
+        if not regs:
+            regs.append((rng.choice(["r", "sr", "w", "sw"]), rng.choice([2, 3, 4, 5])))
+            reginit[regs[0][1]] = rng.choice([rng.randint(-100, 100), rng.randint(-100, 100), rng.randrange(2 ** 31)])
+        kind, no = rng.choice(regs)
+        case["regdest"] = [kind, no]
+        if rng.random() < 0.75:
+            names = [n for n, _, _ in decls[:-1]]
+            R = ["r", kind, no]
+            A = exprs.rand_leaf(rng, names, regs, allow_const=False)
+            B = exprs.rand_leaf(rng, names, regs)
+            bin_ops = [o for o in ops if o in ("+", "-", "*", "&", "|", "^")] or ["+"]
+            un_ops = [o for o in ops if o in ("neg", "abs")]
+            op, op2 = rng.choice(bin_ops), rng.choice(bin_ops)
+            forms = [[op, A, R], [op, R, A], [op, A, [op2, R, B]], [op, A, [op2, B, R]], [op, [op2, A, B], R]]
+            if un_ops:
+                u = rng.choice(un_ops)
+                forms += [[op, A, [u, R]], [op, A, [op2, B, [u, R]]], [op, A, [u, [op2, R, B]]], [op, [u, R], A], [u, [op, A, R]]] * 2
+            case["expr"] = rng.choice(forms)
+    return case
+
+
+REGFMT = {"r": "Q", "sr": "q", "w": "I", "sw": "i"}
+
+
+def dest_fmt(case):
+    if case.get("regdest"):
+        return REGFMT[case["regdest"][0]]
+    return [f for n, _, f in case["decls"] if n == case["dest"]][0]
 
 
 def statements(case):
     st = [["set", ["r", "r", no], ["c", v]] for no, v in sorted(case["reginit"].items())]
-    st.append(["set", ["v", case["dest"]], case["expr"]])
+    if case.get("regdest"):
+        st.append(["set", ["r", case["regdest"][0], case["regdest"][1]], case["expr"]])
+    else:
+        st.append(["set", ["v", case["dest"]], case["expr"]])
     return st
 
 
@@ -199,13 +233,13 @@ class C01(GenCheck):
         return not isinstance(o, Err) and self.expected(case)[1] and len(list(nodes(case["expr"]))) >= 3
 
     def rule(self):
-        return ("random statements `d = expr`: 1-4 operand variables of random formats (b B h H i I q Q, local or array-map), 0-2 registers (r/sr/w/sw) with "
+        return ("random statements `d = expr` (15%: the destination is a register that the expression itself reads - left, right, below a unary operator): 1-4 operand variables of random formats (b B h H i I q Q, local or array-map), 0-2 registers (r/sr/w/sw) with "
                 "boundary contents, constants from the full 64-bit range, trees of depth 1-3 over + - * // % & | ^ << >> neg abs, boundary-heavy operand values; "
                 "built by the real generator, executed in the Coq ISA model; checked when the range precondition holds (always for ring-only trees); "
                 "non-trivial = checked and at least 3 nodes")
 
     def distribution(self, cases, observed):
-        d = {"checked": 0, "outside_precondition": 0, "generator_refused": 0, "ring_only": 0, "with_registers": 0}
+        d = {"checked": 0, "outside_precondition": 0, "generator_refused": 0, "ring_only": 0, "with_registers": 0, "register_destination": 0}
         for c, o in zip(cases, observed):
             if isinstance(o, Err):
                 d["generator_refused"] += 1
@@ -214,6 +248,7 @@ class C01(GenCheck):
             d["checked" if chk else "outside_precondition"] += 1
             d["ring_only"] += exprs.ops_of(c["expr"]) <= exprs.RING
             d["with_registers"] += bool(c["regs"])
+            d["register_destination"] += bool(c.get("regdest"))
         return d
 
     OPN = {"+": "OAdd", "-": "OSub", "*": "OMul", "//": "ODiv", "%": "OMod", "&": "OAnd", "|": "OOr", "^": "OXor",
@@ -282,11 +317,11 @@ class C01(GenCheck):
             return None
         if case["_run"][0] != [1]:
             return None
-        dfmt = [f for n, _, f in case["decls"] if n == case["dest"]][0]
+        dfmt = dest_fmt(case)
         return f"(run {self.cexpr(case, case['expr'])} {cnat(dsl.fmt_size(dfmt))})"
 
     def model_value(self, case, o):
-        dfmt = [f for n, _, f in case["decls"] if n == case["dest"]][0]
+        dfmt = dest_fmt(case)
         return o["dest"] % (1 << 8 * dsl.fmt_size(dfmt))
 
     def run_impl(self, case):
@@ -300,12 +335,16 @@ class C01(GenCheck):
         if status != [1]:
             return Err(7, f"program did not exit normally: status {status}")
         amap = maps[0] if maps else []
+        if case.get("regdest"):
+            f = dest_fmt(case)
+            return {"dest": dsl.from_bytes(f, dsl.to_bytes(f, regs[case["regdest"][1]])),
+                    "others": {n: read_var(n, b, stack, amap) for n in b.layout}}
         return {"dest": read_var(case["dest"], b, stack, amap),
                 "others": {n: read_var(n, b, stack, amap) for n in b.layout if n != case["dest"]}}
 
     def expected(self, case):
         env = exprs.Env({n: (s, f, case["values"][n]) for n, s, f in case["decls"]}, case["reginit"])
-        dfmt = [f for n, s, f in case["decls"] if n == case["dest"]][0]
+        dfmt = dest_fmt(case)
         W = exprs.width_of_statement(dsl.fmt_size(dfmt), case["expr"], env)
         vals, ok, why = exprs.meaning(case["expr"], env, W)
         ring_only = exprs.ops_of(case["expr"]) <= exprs.RING
@@ -339,7 +378,9 @@ class C01(GenCheck):
             if x[0] in ("neg", "abs"):
                 return f"{x[0]}({s(x[1])})"
             return f"({s(x[1])} {x[0]} {s(x[2])})"
-        dfmt = [f for n, _, f in case["decls"] if n == case["dest"]][0]
+        dfmt = dest_fmt(case)
+        if case.get("regdest"):
+            return f"{case['regdest'][0]}{case['regdest'][1]} = {s(case['expr'])}"
         return f"d:{dfmt} = {s(case['expr'])}"
 
     def describe(self, case):
